@@ -166,3 +166,69 @@ Theorem C04_has_group_edge_witness :
   = if has_group_edges_by_name then Some (Some w_my_group) else None.
 Proof. exact has_group_edge_witness. Qed.
 Print Assumptions C04_has_group_edge_witness.
+
+(* ---- webhook-body-shadowed (parse side): in a call_webhook row `webhook.body` and `message_text` denote the
+   same field; the exporter writes the body under `webhook.body` and the rectangular sheet gives the row a blank
+   `message_text` cell.  Over E2's model of parse_row (Row/RowParse.v: rekey_put follows the tree through the probe
+   rekey_blank_keeps, translator/tables_rowfix.py). *)
+From RPFT Require Import Base.ODict Row.RowParse Row.FlowHeaderFacts Row.BlankAliasFacts Row.WebhookBodyFacts.
+
+(* the full statement — a blank cell under a header whose field already has a cell earlier in the row does not
+   change what the row parses to — holds on the repaired tree and is refuted by the row of the finding otherwise *)
+Theorem C04_blank_alias_inert_decided :
+  if rekey_blank_keeps
+  then forall l1 l2 h h0 v0 k,
+         h <> cx_sw_column FlowHeaderFacts.flow_cx ->
+         In (h0, v0) l1 ->
+         ctx_h2f flow_ctx (l1 ++ l2) h0 = Ok k ->
+         ctx_h2f flow_ctx (l1 ++ l2) h = Ok k ->
+         flow_parse (l1 ++ (h, []) :: l2) = flow_parse (l1 ++ l2)
+  else ~ (forall l1 l2 h h0 v0 k,
+         h <> cx_sw_column FlowHeaderFacts.flow_cx ->
+         In (h0, v0) l1 ->
+         ctx_h2f flow_ctx (l1 ++ l2) h0 = Ok k ->
+         ctx_h2f flow_ctx (l1 ++ l2) h = Ok k ->
+         flow_parse (l1 ++ (h, []) :: l2) = flow_parse (l1 ++ l2)).
+Proof. exact blank_alias_inert_decided. Qed.
+Print Assumptions C04_blank_alias_inert_decided.
+
+(* any row model, with or without row context (the statement the flow instance above is made from) *)
+Theorem C04_blank_alias_inert_repaired :
+  rekey_blank_keeps = true ->
+  forall rm l1 l2 h h0 v0 k,
+    same_type_cell (rm_ctx rm) (l1 ++ (h, []) :: l2) (l1 ++ l2) ->
+    In (h0, v0) l1 ->
+    ctx_h2f (rm_ctx rm) (l1 ++ l2) h0 = Ok k ->
+    ctx_h2f (rm_ctx rm) (l1 ++ l2) h = Ok k ->
+    parse_row rm (l1 ++ (h, []) :: l2) = parse_row rm (l1 ++ l2).
+Proof. intros E rm l1 l2 h h0 v0 k. exact (parse_blank_alias_inert rm l1 l2 h h0 v0 k E). Qed.
+Print Assumptions C04_blank_alias_inert_repaired.
+
+(* the row of the finding: it always parses; its body is the body written iff the tree keeps the earlier value *)
+Theorem C04_webhook_body_witness :
+  is_ok (flow_parse w_row_exported) = true
+  /\ body_of (flow_parse w_row_plain) = Some [98; 111; 100; 121; 32; 111; 110; 101]%N
+  /\ body_of (flow_parse w_row_exported) = Some (if rekey_blank_keeps then [98; 111; 100; 121; 32; 111; 110; 101]%N else []).
+Proof. exact webhook_body_witness. Qed.
+Print Assumptions C04_webhook_body_witness.
+
+(* the row the exporter model writes for a call_webhook node (unparse_row on the regenerated FlowRowModel), padded
+   with the blank message_text cell of the sheet, read back *)
+Theorem C04_webhook_export_padded_witness :
+  match flow_unparse (hook_row []) false with
+  | Ok cells =>
+      oget str_eqb cells (s_webhook ++ [46%N] ++ s_body) = Some [98%N] /\ oget str_eqb cells w_header = None
+      /\ flow_parse cells = Ok (hook_row [])
+      /\ (if rekey_blank_keeps then flow_parse (padded_with_message_text cells) = Ok (hook_row [])
+          else is_ok (flow_parse (padded_with_message_text cells)) = true
+               /\ body_of (flow_parse (padded_with_message_text cells)) = Some [])
+  | Err _ => False
+  end.
+Proof. exact webhook_export_padded_witness. Qed.
+Print Assumptions C04_webhook_export_padded_witness.
+
+(* where the blank cell stands does not matter for the body once the tree keeps the earlier value (the blank cell
+   BEFORE the body never mattered, on either tree) *)
+Theorem C04_webhook_body_blank_first : body_of (flow_parse w_row_blank_first) = Some [98; 111; 100; 121; 32; 111; 110; 101]%N.
+Proof. exact webhook_body_blank_first. Qed.
+Print Assumptions C04_webhook_body_blank_first.
